@@ -204,3 +204,387 @@ Proof.
   intros H. unfold minimal_b. apply forallb_forall. intros a Ha. apply forallb_forall. intros b Hb.
   rewrite (H a b Ha Hb). reflexivity.
 Qed.
+
+(* ------------------------------------------------------------------ tree facts *)
+Lemma find_kid_In c kids k : find_kid c kids = Some k -> In k kids /\ node_name k = c.
+Proof.
+  induction kids as [|a kids IH]; simpl; [discriminate|].
+  destruct (bytes_eqb (node_name a) c) eqn:E.
+  - intros H; inversion H; subst. split; [left; auto|apply bytes_eqb_eq; auto].
+  - intros H. destruct (IH H). split; [right|]; auto.
+Qed.
+
+Lemma node_links_eq n : node_links n = node_link n :: forest_links (node_kids n).
+Proof.
+  destruct n as [a s c kids]. reflexivity.
+Qed.
+
+Lemma node_cpaths_eq dirc n :
+  node_cpaths dirc n = (dirc ++ [node_name n]) :: forest_cpaths (dirc ++ [node_name n]) (node_kids n).
+Proof.
+  destruct n as [a s c kids]. simpl. f_equal.
+  induction kids as [|k r IH]; [reflexivity|]. simpl. rewrite IH. reflexivity.
+Qed.
+
+Lemma forest_links_incl k kids : In k kids -> incl (node_links k) (forest_links kids).
+Proof.
+  induction kids as [|a kids IH]; intros H x Hx; [destruct H|]. simpl. apply in_or_app.
+  destruct H as [->|H]; [left; auto|right; apply IH; auto].
+Qed.
+
+Lemma forest_cpaths_incl dirc k kids : In k kids -> incl (node_cpaths dirc k) (forest_cpaths dirc kids).
+Proof.
+  induction kids as [|a kids IH]; intros H x Hx; [destruct H|]. simpl. apply in_or_app.
+  destruct H as [->|H]; [left; auto|right; apply IH; auto].
+Qed.
+
+Lemma lookup_link kids cs n : lookup kids cs = Some n -> In (node_link n) (forest_links kids).
+Proof.
+  revert kids; induction cs as [|c r IH]; intros kids H; [discriminate|].
+  simpl in H. destruct (find_kid c kids) as [k|] eqn:E; [|discriminate].
+  apply find_kid_In in E. destruct E as [Hk _].
+  apply (forest_links_incl k kids Hk). rewrite node_links_eq.
+  destruct r as [|c2 r]; [inversion H; subst; left; auto|]. right. apply IH. exact H.
+Qed.
+
+Lemma lookup_cpath kids cs n dirc : lookup kids cs = Some n -> In (dirc ++ cs) (forest_cpaths dirc kids).
+Proof.
+  revert kids dirc; induction cs as [|c r IH]; intros kids dirc H; [discriminate|].
+  simpl in H. destruct (find_kid c kids) as [k|] eqn:E; [|discriminate].
+  apply find_kid_In in E. destruct E as [Hk Hn].
+  apply (forest_cpaths_incl dirc k kids Hk). rewrite node_cpaths_eq, Hn.
+  destruct r as [|c2 r]; [left; auto|]. right.
+  replace (dirc ++ c :: c2 :: r) with ((dirc ++ [c]) ++ c2 :: r) by (rewrite <- app_assoc; reflexivity).
+  apply IH. exact H.
+Qed.
+
+Lemma norm_clamp_forall (P : bytes -> Prop) cs : Forall P cs -> Forall P (norm_clamp cs).
+Proof. intros H. unfold norm_clamp. apply Forall_rev. apply fold_cstep_forall; auto. Qed.
+
+Lemma filter_len_le {A} (p q : A -> bool) l :
+  (forall x, q x = true -> p x = true) -> (length (filter q l) <= length (filter p l))%nat.
+Proof.
+  intros H. induction l as [|a l IH]; simpl; [lia|].
+  destruct (q a) eqn:Eq; [rewrite (H a Eq); simpl; lia|]. destruct (p a); simpl; lia.
+Qed.
+
+Lemma filter_len_lt {A} (p q : A -> bool) l k :
+  (forall x, q x = true -> p x = true) -> In k l -> p k = true -> q k = false ->
+  (length (filter q l) < length (filter p l))%nat.
+Proof.
+  intros H Hin Hp Hq. induction l as [|a l IH]; [destruct Hin|]. simpl.
+  destruct Hin as [->|Hin].
+  - rewrite Hp, Hq. simpl. pose proof (filter_len_le p q l H). lia.
+  - specialize (IH Hin). destruct (q a) eqn:Eq; [rewrite (H a Eq); simpl; lia|]. destruct (p a); simpl; lia.
+Qed.
+
+(* ------------------------------------------------------------------ invariants of the resolver *)
+Definition sub (R R' : list bytes) : Prop := forall x, mem x R = true -> mem x R' = true.
+Lemma sub_refl R : sub R R. Proof. intros x H; exact H. Qed.
+Lemma sub_trans A B C : sub A B -> sub B C -> sub A C. Proof. intros H1 H2 x H. auto. Qed.
+Lemma sub_cons k R : sub R (k :: R). Proof. intros x H. simpl. rewrite H. apply orb_true_r. Qed.
+
+Lemma resolved_note_revisit h k r st : resolved (note_revisit h k r st) = resolved st.
+Proof. unfold note_revisit. destruct (h && negb (mem_exp k r (g_expanded st))); reflexivity. Qed.
+
+Section Resolver.
+Variable gmatch : bytes -> bytes -> bool.
+Variable view : list node.
+
+(* monotonicity and duplicate-freedom of [resolved] *)
+Definition mono_rec (rec : rec_t) : Prop :=
+  forall st p st', rec st p = Ok st' ->
+    sub (resolved st) (resolved st') /\ (NoDup (resolved st) -> NoDup (resolved st')).
+
+Lemma each_target_mono rec rest ts : mono_rec rec -> mono_rec (fun st _ => each_target rec rest ts st).
+Proof.
+  intros Hrec. induction ts as [|t ts IH]; intros st p st' H; simpl in H.
+  - inversion H; subst. split; [apply sub_refl|auto].
+  - destruct (rec st (norm_clamp (t ++ rest))) as [st1|] eqn:E; [|discriminate].
+    destruct (Hrec _ _ _ E) as [H1 H2]. destruct (IH st1 p st' H) as [H3 H4].
+    split; [eapply sub_trans; eauto|auto].
+Qed.
+
+Lemma loop_mono rec : mono_rec rec -> forall cur, mono_rec (fun st p => loop gmatch view rec cur p st).
+Proof.
+  intros Hrec cur st p. revert cur st. induction p as [|c rest IH]; intros cur st st' H.
+  - simpl in H. inversion H; subst. split; [apply sub_refl|auto].
+  - cbn [loop] in H.
+    set (k := key (cur ++ [c])) in *. set (ts := read_symlink gmatch view cur c) in *.
+    destruct (mem k (resolved st)) eqn:Em.
+    + destruct (is_nil rest || negb (is_nil ts)) eqn:Eo; cbn [andb] in H.
+      * inversion H; subst. rewrite resolved_note_revisit. split; [apply sub_refl|auto].
+      * apply orb_false_iff in Eo. destruct Eo as [E1 E2]. rewrite E2, E1 in H. apply (IH _ _ _ H).
+    + rewrite andb_false_r in H.
+      assert (Hadd : sub (resolved st) (k :: resolved st) /\ (NoDup (resolved st) -> NoDup (k :: resolved st))).
+      { split; [apply sub_cons|]. intros Hd. constructor; auto. apply mem_false; auto. }
+      destruct (negb (is_nil ts)) eqn:Eh.
+      * destruct (each_target_mono rec rest ts Hrec _ [] _ H) as [H1 H2]. cbn [add_expanded add_resolved resolved] in H1, H2.
+        destruct Hadd. split; [eapply sub_trans; eauto|auto].
+      * destruct (is_nil rest); [inversion H; subst; exact Hadd|]. apply (IH _ _ _ H).
+Qed.
+
+Lemma append_mono fuel : mono_rec (append gmatch view fuel).
+Proof.
+  induction fuel as [|f IH]; intros st p st' H; [discriminate|].
+  cbn [append] in H. destruct p as [|c r].
+  - inversion H; subst. destruct (mem s_dot (resolved st)) eqn:E; [split; [apply sub_refl|auto]|].
+    split; [apply sub_cons|]. intros Hd. constructor; auto. apply mem_false; auto.
+  - apply (loop_mono (append gmatch view f) IH [] st (c :: r) st' H).
+Qed.
+
+Lemma follow_reqs_mono fuel reqs st st' :
+  follow_reqs gmatch view fuel st reqs = Ok st' ->
+  sub (resolved st) (resolved st') /\ (NoDup (resolved st) -> NoDup (resolved st')).
+Proof.
+  revert st; induction reqs as [|r rs IH]; intros st H; simpl in H.
+  - inversion H; subst. split; [apply sub_refl|auto].
+  - destruct (append gmatch view fuel st (norm_clamp (comps r))) as [st1|] eqn:E; [|discriminate].
+    destruct (append_mono _ _ _ _ E) as [H1 H2]. destruct (IH _ H) as [H3 H4].
+    split; [eapply sub_trans; eauto|auto].
+Qed.
+
+Lemma follow_state_nodup fuel reqs st : follow_state gmatch view fuel reqs = Ok st -> NoDup (resolved st).
+Proof. intros H. apply follow_reqs_mono in H. destruct H as [_ H]. apply H. constructor. Qed.
+
+(* ---- sorted, minimal, nil exactly when "." was resolved ---- *)
+Lemma finish_sorted_minimal st l : NoDup (resolved st) -> finish st = Some l ->
+  sorted_b l = true /\ minimal_b l = true.
+Proof.
+  intros Hd H. unfold finish, dedupe_paths in H.
+  pose proof (sort_bytes_ssorted _ Hd) as Hs. split.
+  - apply sorted_b_ssorted. eapply dedupe_from_ssorted; eauto.
+  - apply minimal_b_pairwise. eapply dedupe_from_minimal; eauto.
+Qed.
+
+Lemma finish_none_iff st : finish st = None <-> In s_dot (resolved st).
+Proof.
+  unfold finish, dedupe_paths. split.
+  - intros H. destruct (in_dec (list_eq_dec N.eq_dec) s_dot (resolved st)) as [Hi|Hn]; auto.
+    destruct (dedupe_from_nodot [] (sort_bytes (resolved st))) as [o Ho]; [rewrite sort_bytes_In; auto|congruence].
+  - intros H. apply dedupe_from_dot. apply sort_bytes_In. exact H.
+Qed.
+
+(* every resolved key is in the result or strictly inside one of its elements *)
+Lemma finish_covers st l : finish st = Some l ->
+  forall x, In x (resolved st) -> exists e, In e l /\ (e = x \/ inside e x = true).
+Proof.
+  intros H x Hx. unfold finish, dedupe_paths in H.
+  destruct (dedupe_from_covers [] _ _ H x) as [(o & [] & _)|He]; [apply sort_bytes_In; auto|exact He].
+Qed.
+
+Lemma finish_subset st l : finish st = Some l -> forall x, In x l -> In x (resolved st).
+Proof.
+  intros H x Hx. unfold finish, dedupe_paths in H. apply sort_bytes_In. eapply dedupe_from_In; eauto.
+Qed.
+
+End Resolver.
+
+(* ------------------------------------------------------------------ termination *)
+(* Measure (DESIGN A.8): candidate keys not yet in [resolved].  A recursive call of
+   append is made only after a key with a non-nil target list was inserted; such a
+   key is an entry of the view, or a directory of the view (or the root) extended by
+   one wildcard component, and every component that can ever appear comes from a
+   request or a link target ([comp_pool]); the component loop is structural. *)
+Section Termination.
+Variable gmatch : bytes -> bytes -> bool.
+Variable view : list node.
+Variable reqs : list bytes.
+
+Definition PC (p : list bytes) : Prop := Forall (fun c => In c (comp_pool view reqs)) p.
+
+Lemma link_target_PC dirc l : PC dirc -> In l (forest_links view) -> PC (link_target dirc l).
+Proof.
+  intros Hd Hl. unfold link_target. apply norm_clamp_forall. apply Forall_app. split.
+  - destruct (is_abs l); [constructor|exact Hd].
+  - apply Forall_forall. intros c Hc. unfold comp_pool. apply in_or_app. right.
+    apply in_flat_map. exists l. auto.
+Qed.
+
+Lemma read_symlink1_PC dirc name : PC dirc -> Forall PC (read_symlink1 view dirc name).
+Proof.
+  intros Hd. unfold read_symlink1, stat_node. destruct (lookup view (dirc ++ [name])) as [n|] eqn:E; [|constructor].
+  destruct (node_is_symlink n); [|constructor]. constructor; [|constructor].
+  apply link_target_PC; auto. eapply lookup_link; eauto.
+Qed.
+
+Lemma read_symlink_PC dirc c : PC dirc -> Forall PC (read_symlink gmatch view dirc c).
+Proof.
+  intros Hd. unfold read_symlink. destruct (contains_wildcards c); [|apply read_symlink1_PC; auto].
+  destruct (read_dir view dirc) as [kids|]; [|constructor].
+  induction kids as [|k kids IH]; [constructor|]. simpl. apply Forall_app. split; [|exact IH].
+  destruct (gmatch c (node_name k)); [apply read_symlink1_PC; auto|constructor].
+Qed.
+
+Lemma read_symlink_cand cur c :
+  In c (comp_pool view reqs) -> read_symlink gmatch view cur c <> [] ->
+  In (key (cur ++ [c])) (cand_keys view reqs).
+Proof.
+  intros Hc. unfold read_symlink, cand_keys. destruct (contains_wildcards c).
+  - destruct (read_dir view cur) as [kids|] eqn:E; [|congruence]. intros _.
+    apply in_or_app. right. apply in_flat_map. exists cur. split.
+    + unfold read_dir in E. destruct cur as [|c0 cur0]; [left; reflexivity|]. right.
+      destruct (lookup view (c0 :: cur0)) as [n|] eqn:El; [|discriminate].
+      apply (lookup_cpath view (c0 :: cur0) n [] El).
+    + apply (in_map (fun c1 => key (cur ++ [c1]))). exact Hc.
+  - intros H. apply in_or_app. left. apply in_map.
+    unfold read_symlink1, stat_node in H. destruct (lookup view (cur ++ [c])) as [n|] eqn:El; [|congruence].
+    apply (lookup_cpath view (cur ++ [c]) n [] El).
+Qed.
+
+Definition M (R : list bytes) : nat :=
+  length (filter (fun k => negb (mem k R)) (cand_keys view reqs)).
+
+Lemma M_mono R R' : sub R R' -> (M R' <= M R)%nat.
+Proof.
+  intros H. unfold M. apply filter_len_le. intros x Hx.
+  destruct (mem x R) eqn:E; auto. rewrite (H x E) in Hx. discriminate.
+Qed.
+
+Lemma M_add k R : In k (cand_keys view reqs) -> mem k R = false -> (M (k :: R) < M R)%nat.
+Proof.
+  intros Hk Hm. unfold M. apply (filter_len_lt _ _ _ k); auto.
+  - intros x Hx. simpl in Hx. destruct (mem x R); [rewrite orb_true_r in Hx; discriminate|reflexivity].
+  - rewrite Hm. reflexivity.
+  - simpl. rewrite bytes_eqb_refl. reflexivity.
+Qed.
+
+Definition good_rec (f : nat) (rec : rec_t) : Prop :=
+  forall st p, PC p -> (M (resolved st) < f)%nat ->
+    exists st', rec st p = Ok st' /\ sub (resolved st) (resolved st').
+
+Lemma each_target_ok f rec rest ts st :
+  good_rec f rec -> PC rest -> Forall PC ts -> (M (resolved st) < f)%nat ->
+  exists st', each_target rec rest ts st = Ok st' /\ sub (resolved st) (resolved st').
+Proof.
+  intros Hrec Hrest. revert st. induction ts as [|t ts IH]; intros st Hts HM; simpl.
+  - exists st. split; [reflexivity|apply sub_refl].
+  - inversion Hts as [|? ? Ht Hts']; subst.
+    destruct (Hrec st (norm_clamp (t ++ rest))) as (st1 & E1 & S1); auto.
+    { apply norm_clamp_forall. apply Forall_app. split; auto. }
+    rewrite E1. destruct (IH st1 Hts') as (st2 & E2 & S2).
+    { pose proof (M_mono _ _ S1). lia. }
+    exists st2. split; [exact E2|eapply sub_trans; eauto].
+Qed.
+
+Lemma loop_ok f rec : good_rec f rec -> forall p cur st,
+  PC cur -> PC p -> (M (resolved st) <= f)%nat ->
+  exists st', loop gmatch view rec cur p st = Ok st' /\ sub (resolved st) (resolved st').
+Proof.
+  intros Hrec. induction p as [|c rest IH]; intros cur st Hcur Hp HM.
+  - exists st. split; [reflexivity|apply sub_refl].
+  - inversion Hp as [|? ? Hc Hrest]; subst. cbn [loop].
+    set (k := key (cur ++ [c])). set (ts := read_symlink gmatch view cur c).
+    assert (Hcur' : PC (cur ++ [c])) by (apply Forall_app; split; auto).
+    destruct (mem k (resolved st)) eqn:Em.
+    + destruct (is_nil rest || negb (is_nil ts)) eqn:Eo; cbn [andb].
+      * eexists. split; [reflexivity|]. rewrite resolved_note_revisit. apply sub_refl.
+      * apply orb_false_iff in Eo. destruct Eo as [E1 E2]. rewrite E2, E1. apply IH; auto.
+    + rewrite andb_false_r. destruct (negb (is_nil ts)) eqn:Eh.
+      * assert (Hk : In k (cand_keys view reqs)).
+        { apply read_symlink_cand; auto. fold ts. destruct ts; [discriminate|congruence]. }
+        pose proof (M_add k (resolved st) Hk Em) as Hlt.
+        destruct (each_target_ok f rec rest ts (add_expanded k rest (add_resolved k st)) Hrec Hrest)
+          as (st' & E & S).
+        { apply read_symlink_PC; auto. }
+        { cbn [add_expanded add_resolved resolved]. lia. }
+        exists st'. split; [exact E|]. eapply sub_trans; [apply (sub_cons k)|exact S].
+      * destruct (is_nil rest).
+        -- eexists. split; [reflexivity|]. apply sub_cons.
+        -- apply IH; auto.
+Qed.
+
+Lemma append_ok fuel : good_rec fuel (append gmatch view fuel).
+Proof.
+  induction fuel as [|f IH]; intros st p Hp HM; [lia|].
+  cbn [append]. destruct p as [|c r].
+  - eexists. split; [reflexivity|]. destruct (mem s_dot (resolved st)); [apply sub_refl|apply sub_cons].
+  - apply (loop_ok f (append gmatch view f) IH (c :: r) [] st); auto; [constructor|lia].
+Qed.
+
+Lemma follow_reqs_ok fuel rs st :
+  (forall r, In r rs -> In r reqs) -> (M (resolved st) < fuel)%nat ->
+  exists st', follow_reqs gmatch view fuel st rs = Ok st'.
+Proof.
+  revert st; induction rs as [|r rs IH]; intros st Hin HM; simpl; [eauto|].
+  destruct (append_ok fuel st (norm_clamp (comps r))) as (st1 & E & S); auto.
+  { apply norm_clamp_forall. apply Forall_forall. intros c Hc. unfold comp_pool. apply in_or_app. left.
+    apply in_flat_map. exists r. split; auto. apply Hin. left; auto. }
+  rewrite E. apply IH; [intros; apply Hin; right; auto|]. pose proof (M_mono _ _ S). lia.
+Qed.
+
+Lemma follow_state_terminates :
+  exists st, follow_state gmatch view (fuel_bound view reqs) reqs = Ok st.
+Proof.
+  apply follow_reqs_ok; auto. unfold fuel_bound, M. cbn [st0 resolved].
+  pose proof (filter_len_le (fun _ => true) (fun k => negb (mem k [])) (cand_keys view reqs) (fun _ _ => eq_refl)).
+  assert (length (filter (fun _ : bytes => true) (cand_keys view reqs)) = length (cand_keys view reqs)).
+  { induction (cand_keys view reqs); simpl; auto. }
+  lia.
+Qed.
+
+End Termination.
+
+(* ------------------------------------------------------------------ a request for the root gives nil *)
+Section RootRequest.
+Variable gmatch : bytes -> bytes -> bool.
+Variable view : list node.
+
+Lemma append_root fuel st st' :
+  append gmatch view fuel st [] = Ok st' -> mem s_dot (resolved st') = true.
+Proof.
+  destruct fuel as [|f]; [discriminate|]. cbn [append]. intros H. inversion H; subst.
+  destruct (mem s_dot (resolved st)) eqn:E; [exact E|]. simpl. reflexivity.
+Qed.
+
+Lemma follow_reqs_root fuel rs st st' r :
+  In r rs -> norm_clamp (comps r) = [] -> follow_reqs gmatch view fuel st rs = Ok st' ->
+  mem s_dot (resolved st') = true.
+Proof.
+  revert st; induction rs as [|r0 rs IH]; intros st Hin Hr H; [destruct Hin|].
+  simpl in H. destruct (append gmatch view fuel st (norm_clamp (comps r0))) as [st1|] eqn:E; [|discriminate].
+  destruct Hin as [->|Hin].
+  - rewrite Hr in E. apply append_root in E.
+    destruct (follow_reqs_mono gmatch view fuel rs st1 st' H) as [S _]. apply S. exact E.
+  - eapply IH; eauto.
+Qed.
+End RootRequest.
+
+(* ------------------------------------------------------------------ statements used by Properties/C18.v *)
+Lemma follow_terminates_proof :
+  forall gmatch view reqs, follow_links gmatch view (fuel_bound view reqs) reqs <> OutOfFuel.
+Proof.
+  intros gmatch view reqs. unfold follow_links, follow_links_opt.
+  destruct (follow_state_terminates gmatch view reqs) as [st ->].
+  destruct (finish st); discriminate.
+Qed.
+
+Lemma result_sorted_minimal_proof :
+  forall gmatch view fuel reqs,
+    (forall l, follow_links gmatch view fuel reqs = Ok l -> sorted_b l = true /\ minimal_b l = true) /\
+    (forall st, follow_state gmatch view fuel reqs = Ok st ->
+       (In s_dot (resolved st) <-> follow_links_opt gmatch view fuel reqs = Ok None)) /\
+    (forall r l, In r reqs -> norm_clamp (comps r) = [] ->
+       follow_links gmatch view fuel reqs = Ok l -> l = []).
+Proof.
+  intros gmatch view fuel reqs. unfold follow_links, follow_links_opt. split; [|split].
+  - intros l. destruct (follow_state gmatch view fuel reqs) as [st|] eqn:E; [|discriminate].
+    destruct (finish st) as [o|] eqn:Ef; intros H; inversion H; subst; [|split; reflexivity].
+    eapply finish_sorted_minimal; eauto. eapply follow_state_nodup; eauto.
+  - intros st E. rewrite E. split.
+    + intros Hd. apply finish_none_iff in Hd. rewrite Hd. reflexivity.
+    + intros Hn. apply finish_none_iff. destruct (finish st); [discriminate|reflexivity].
+  - intros r l Hin Hr. destruct (follow_state gmatch view fuel reqs) as [st|] eqn:E; [|discriminate].
+    unfold follow_state in E. pose proof (follow_reqs_root gmatch view fuel reqs st0 st r Hin Hr E) as Hm.
+    apply mem_In in Hm. apply finish_none_iff in Hm. rewrite Hm. intros H; inversion H; reflexivity.
+Qed.
+
+Lemma result_covers_resolved_proof :
+  forall gmatch view fuel reqs st l,
+    follow_state gmatch view fuel reqs = Ok st -> follow_links_opt gmatch view fuel reqs = Ok (Some l) ->
+    (forall x, In x (resolved st) -> exists e, In e l /\ (e = x \/ inside e x = true)) /\
+    (forall e, In e l -> In e (resolved st)).
+Proof.
+  intros gmatch view fuel reqs st l Hs H. unfold follow_links_opt in H. rewrite Hs in H.
+  inversion H as [Hf]. split; [eapply finish_covers; eauto|eapply finish_subset; eauto].
+Qed.
